@@ -194,19 +194,31 @@ func isComment(node Node) bool {
 	return ok
 }
 
-// Compact mode: Skip comments and decide if we need a space separator or not.
-func prettyPrintCompact(ps *PrintState, s Node, i int) bool {
-	if isComment(s) {
-		return true
+func isWordByte(b byte) bool {
+	return b == '_' || ('0' <= b && b <= '9') || ('a' <= b && b <= 'z') || ('A' <= b && b <= 'Z')
+}
+
+// Compact mode: decide if we need a space separator or not; first is the first byte of what s prints.
+func prettyPrintCompact(ps *PrintState, s Node, i int, first byte) {
+	if i == 0 {
+		return
 	}
 	_, prevIsExpr := ps.prev.(*InfixExpression)
 	_, curIsArray := s.(*ArrayLiteral)
-	if curIsArray || (prevIsExpr && ps.last != "}" && ps.last != "]") {
-		if i > 0 {
-			_, _ = ps.Out.Write([]byte{' '})
+	needSpace := curIsArray || (prevIsExpr && ps.last != "}" && ps.last != "]")
+	// (b) or [b] % c right after the previous statement would be a call or an index,
+	// and two words or numbers would become one: a b, 1 .5, 1. 5, y return n.
+	if first == '(' || first == '[' {
+		needSpace = true
+	}
+	if ps.last != "" && (isWordByte(first) || first == '.') {
+		if e := ps.last[len(ps.last)-1]; isWordByte(e) || e == '.' {
+			needSpace = true
 		}
 	}
-	return false
+	if needSpace {
+		_, _ = ps.Out.Write([]byte{' '})
+	}
 }
 
 // Normal/long form print: Decide if using new line or space as separator.
@@ -223,6 +235,69 @@ func prettyPrintLongForm(ps *PrintState, s Node, i int) {
 	}
 }
 
+// firstByte returns the first byte n.PrettyPrint(ps) is going to write when called with the given
+// expression precedence (following the same parentheses decisions), or 0 when it can't tell.
+func (ps *PrintState) firstByte(n Node, precedence Priority) byte {
+	lit := func(t *token.Token) byte {
+		if t == nil || t.Literal() == "" {
+			return 0
+		}
+		return t.Literal()[0]
+	}
+	operator := func(t *token.Token, left Node) byte {
+		p, ok := Precedences[t.Type()]
+		switch {
+		case !ok:
+			return 0
+		case ps.AllParens || p < precedence:
+			return '('
+		default:
+			return ps.firstByte(left, p)
+		}
+	}
+	switch v := n.(type) {
+	case nil:
+		return 0
+	case *PrefixExpression:
+		if ps.AllParens || PREFIX <= precedence {
+			return '('
+		}
+		return lit(v.Token)
+	case *PostfixExpression:
+		return operator(v.Token, &Identifier{Base{v.Prev}})
+	case *InfixExpression:
+		return operator(v.Token, v.Left)
+	case *IndexExpression:
+		if v.Type() == token.DOT && isNumberLiteral(v.Left) {
+			return '('
+		}
+		return operator(v.Token, v.Left)
+	case *CallExpression:
+		return ps.firstByte(v.Function, CALL)
+	case *FunctionLiteral:
+		switch {
+		case !v.IsLambda:
+			return lit(v.Token)
+		case precedence > LAMBDA || len(v.Parameters) != 1:
+			return '('
+		default:
+			return ps.firstByte(v.Parameters[0], precedence)
+		}
+	case *StringLiteral:
+		return '"'
+	case *ArrayLiteral:
+		return '['
+	case *MapLiteral:
+		return '{'
+	case *IfExpression:
+		return 'i'
+	case *ForExpression:
+		return 'f'
+	default: // identifiers, literals, builtins, return, break, continue, macro, comments.
+		return lit(n.Value())
+	}
+}
+
 func (p Statements) PrettyPrint(ps *PrintState) *PrintState {
 	oldExpressionPrecedence := ps.ExpressionPrecedence
 	if ps.IndentLevel > 0 {
@@ -233,14 +308,29 @@ func (p Statements) PrettyPrint(ps *PrintState) *PrintState {
 	ps.prev = nil // the first statement of a block has no previous one (was leaking from an earlier block).
 	var i int
 	for _, s := range p.Statements {
+		if ps.Compact && isComment(s) {
+			continue // skip comments entirely.
+		}
+		paren := false
 		if ps.Compact {
-			if prettyPrintCompact(ps, s, i) {
-				continue // skip comments entirely.
+			// A statement starting with an operator that is also a binary or postfix operator (-b, +b, ^b, ++b, --b)
+			// would continue the previous statement: a -b is a - b. So it's printed as (-b).
+			first := ps.firstByte(s, LOWEST)
+			paren = i > 0 && (first == '-' || first == '+' || first == '^')
+			if paren {
+				first = '('
 			}
+			prettyPrintCompact(ps, s, i, first)
 		} else {
 			prettyPrintLongForm(ps, s, i)
 		}
+		if paren {
+			ps.Print("(")
+		}
 		s.PrettyPrint(ps)
+		if paren {
+			ps.Print(")")
+		}
 		ps.prev = s
 		i++
 	}
